@@ -157,10 +157,10 @@ def direct_part(chk, exprs):
                 rec.collected[pid] = list(res)
         return res
 
-    def kill_hook(pid, fn):
+    def kill_hook(pid, *a, **k):       # (whatever further parameters the function has in the tree under test)
         with rec.lock:
             rec.kills.append((getattr(tl, "scen", None), pid))
-        return o_kill(pid, fn)
+        return o_kill(pid, *a, **k)
 
     skill.Popen = PopenSpy
     skill._get_process_children = real_children
@@ -269,9 +269,9 @@ def direct_interrupt_part(chk, exprs):
     kills = []
     o_kill = skill._kill
 
-    def kill_hook(pid, fn):
+    def kill_hook(pid, *a, **k):
         kills.append(pid)
-        return o_kill(pid, fn)
+        return o_kill(pid, *a, **k)
     skill._kill = kill_hook
     allp = []
     # whatever the code under test does with the handler of SIGTERM (install once, restore, forget): a SIGTERM that reaches
